@@ -435,7 +435,10 @@ fn exec_child(op: &str, args: &[Sexp]) -> Ans {
 			let r = run_code(&b);
 			let m = MAX_REQ.load(Ordering::Relaxed);
 			if let Outc::Panic(p) = &r { if !OPEN_SITES.contains(&p.as_str()) { return Ans::fail(p); } }
-			if m <= 64 * b.len() + (1 << 24) { Ans::pass() } else { Ans::fail("alloc") }
+			// a request beyond the bound is the open site 6 (`read_u8_vec(length as usize)`, length: u32): outside the
+			// proved domain; the model says the same exactly when *its* u32-sized request is that large, so any other
+			// oversized allocation shows up as a disagreement
+			if m <= 64 * b.len() + (1 << 24) { Ans::pass() } else if m <= u32::MAX as usize { Ans::out_of_domain() } else { Ans::fail("alloc") }
 		}
 		_ => match run_plain(op, args) { Ok(o) => outc_ans(o), Err(e) => Ans::BadOp(e) },
 	}
@@ -698,7 +701,11 @@ fn gen_bytecode(r: &mut Rng, out: &mut Out) -> Vec<u8> {
 		let pos = c.len();
 		starts.push(pos);
 		match r.below(22) {
-			0 | 1 => c.push(*r.pick(&[0u8, 1, 3, 9, 0x57, 0x59, 0x60, 0xbe, 0xbf, 0xc2, 0xc3, 0x2e, 0x4f, 0x85, 0x98])),
+			0 | 1 => { // any operand-less opcode
+				let ranges: [(u8, u8); 8] = [(0, 15), (26, 53), (59, 131), (133, 152), (172, 177), (190, 191), (194, 195), (46, 53)];
+				let (lo, hi) = *r.pick(&ranges);
+				c.push(r.range(lo as usize, hi as usize) as u8);
+			}
 			2 => { c.push(*r.pick(&[0x10u8, 0x15, 0x19, 0x36, 0x3a, 0xa9])); c.push(r.below(256) as u8); }
 			3 => { c.push(0x12); c.push(if bad(r) { *r.pick(&[0u8, 1, 12, 18, 20, 35, 255]) } else { *r.pick(&[2u8, 4, 15, 16, 21, 22, 23]) }); }
 			4 => { c.push(*r.pick(&[0x13u8, 0x14])); c.push(if bad(r) { 1 } else { 0 }); c.push(if bad(r) { *r.pick(&[0u8, 13, 18, 200]) } else { *r.pick(&[2u8, 15, 17, 19, 21, 22, 23]) }); }
@@ -940,7 +947,11 @@ fn text_token(r: &mut Rng) -> Vec<u8> {
 }
 
 fn join_line(r: &mut Rng, indent: usize, fields: &[Vec<u8>], sep: u8) -> Vec<u8> {
-	let mut l = vec![b'\t'; indent];
+	let odd: &[&str] = &["\u{a0}", "\u{2003}", "\u{feff}", "é", "\u{1f600}", " ", "\u{b}", "\u{3000}\u{3000}", "\u{85}"];
+	let mut l = Vec::new();
+	if r.chance(1, 25) { l.extend_from_slice(r.pick(odd).as_bytes()); }
+	l.extend(std::iter::repeat(b'\t').take(indent));
+	if r.chance(1, 25) { l.extend_from_slice(r.pick(odd).as_bytes()); if r.chance(1, 2) { l.push(b'\t'); } }
 	for (i, f) in fields.iter().enumerate() { if i > 0 { l.push(if r.chance(1, 30) { b' ' } else { sep }); } l.extend_from_slice(f); }
 	l
 }
@@ -1064,6 +1075,12 @@ fn gen_text(r: &mut Rng, tier: Tier, out: &mut Out) {
 	}
 	// descriptors: exhaustive short strings over the grammar alphabet, then random longer ones
 	let alpha: Vec<u32> = "[LIV;()a/".chars().map(|c| c as u32).collect();
+	for p in "BCDFIJSZV".chars() {
+		for pre in ["", "[", "[[", "(", "()", "(I)"] {
+			let s: Vec<u32> = pre.chars().chain(std::iter::once(p)).map(|c| c as u32).collect();
+			for op in ["desc-field", "desc-method", "desc-return"] { out.op(op, &[Sexp::cps(&s)]); }
+		}
+	}
 	let max_len = if tier == Tier::Thorough { 5 } else { 3 };
 	for len in 0..=max_len {
 		for code in 0..alpha.len().pow(len as u32) {
